@@ -7,6 +7,7 @@ import (
 	"slices"
 	"strconv"
 	"strings"
+	"unsafe"
 
 	"github.com/creachadair/mds/slice"
 )
@@ -18,6 +19,12 @@ import (
 // byte, X, Y and where X / Y start inside lhs / rhs (pointer identity: the
 // edits share storage with the inputs), nil-ness of the LCS result, and
 // whether the input slices were modified by the call.
+//
+// `editt <ty>` / `lcst <ty> [k]` make the same calls at another ELEMENT type from the same integer state (the
+// library is generic; a change may misbehave for some instantiations only): ty = zs (struct{}) and za ([0]int) —
+// zero-size elements, only the two LENGTHS matter, every element reads back as 0 —, pad (struct{a int8; b int64},
+// both fields significant) and str (strings of different lengths, "" included).  Observations are converted back
+// to the integers, so the driver runs the same model/spec functions (for zs/za on lists of zeros).
 
 type c11 struct {
 	lhs, rhs []int
@@ -64,7 +71,7 @@ func c11fmtCsv(vs []int) string {
 
 // c11off is where sub starts inside base ("-" for an empty sub, "?" when it
 // does not alias base).
-func c11off(base, sub []int) string {
+func c11off[T any](base, sub []T) string {
 	if len(sub) == 0 {
 		return "-"
 	}
@@ -103,10 +110,99 @@ func c11cmp(mode string) func(a, b int) int {
 // editObs runs LCS and EditScript on (lhs, rhs) and prints everything observable: the LCS, the script edit by
 // edit with op byte, X, Y and where X / Y start inside lhs / rhs (pointer identity).
 func (r *c11) editObs(lhs, rhs []int) string {
+	return c11editObs(r.st, lhs, rhs, func(v int) int { return v })
+}
+
+// c11dec maps a slice of T back to the integers.
+func c11dec[T any](vs []T, dec func(T) int) []int {
+	if vs == nil {
+		return nil
+	}
+	out := make([]int, len(vs))
+	for i, v := range vs {
+		out[i] = dec(v)
+	}
+	return out
+}
+
+func c11enc[T any](vs []int, enc func(int) T) []T {
+	out := make([]T, len(vs))
+	for i, v := range vs {
+		out[i] = enc(v)
+	}
+	return out
+}
+
+// The element types of `editt` / `lcst`.
+type c11pad struct {
+	a int8
+	b int64
+}
+
+func c11padEnc(v int) c11pad { return c11pad{a: int8(v & 1), b: int64(v >> 1)} } // a bijection: both fields matter
+func c11padDec(p c11pad) int { return int(p.b)<<1 | int(p.a) }
+func c11strEnc(v int) string {
+	if v == 0 {
+		return ""
+	}
+	return strings.Repeat("x", v&3) + strconv.Itoa(v)
+}
+func c11strDec(s string) int { return atoi(strings.TrimLeft(s, "x")) }
+
+// c11typed runs f at the element type named ty on the conversions of lhs and rhs.
+func c11typed(ty string, lhs, rhs []int, st *Stats, f func(c11call) string) string {
+	switch ty {
+	case "zs":
+		return c11at(lhs, rhs, st, f, func(int) struct{} { return struct{}{} }, func(struct{}) int { return 0 })
+	case "za":
+		return c11at(lhs, rhs, st, f, func(int) [0]int { return [0]int{} }, func([0]int) int { return 0 })
+	case "pad":
+		return c11at(lhs, rhs, st, f, c11padEnc, c11padDec)
+	case "str":
+		return c11at(lhs, rhs, st, f, c11strEnc, c11strDec)
+	}
+	return "bad-op"
+}
+
+// c11call is the instantiation-independent view of one typed call: the two library functions applied to the
+// converted inputs with the results converted back.
+type c11call struct {
+	edit func() string                       // the editObs text
+	lcs  func(k int) (res []int, isNil bool) // LCS (k = 0) or LCSFunc with equality modulo k of the integers
+	mod  func() bool                         // an input slice was modified
+}
+
+func c11at[T comparable](lhs, rhs []int, st *Stats, f func(c11call) string, enc func(int) T, dec func(T) int) string {
+	l, r := c11enc(lhs, enc), c11enc(rhs, enc)
+	l0, r0 := slices.Clone(l), slices.Clone(r)
+	return f(c11call{
+		edit: func() string { return c11editObs(st, l, r, dec) },
+		lcs: func(k int) ([]int, bool) {
+			var res []T
+			if k == 0 {
+				res = slice.LCS(l, r)
+			} else {
+				res = slice.LCSFunc(l, r, func(a, b T) bool { return dec(a)%k == dec(b)%k })
+			}
+			return c11dec(res, dec), res == nil
+		},
+		mod: func() bool { return !slices.Equal(l, l0) || !slices.Equal(r, r0) },
+	})
+}
+
+// c11editObs runs LCS and EditScript at element type T and prints the observation of `edit` with the elements
+// mapped back to integers by dec.  Where X / Y start inside lhs / rhs is found by pointer identity — except for a
+// zero-size T, where all elements of all slices have one address: there the running offsets of the script itself
+// are printed.
+func c11editObs[T comparable](st *Stats, lhs, rhs []T, dec func(T) int) string {
+	r := struct{ st *Stats }{st}
 	// EditScript FIRST: whatever an earlier call on the same (held) arrays may have left behind is still in place
 	// when it runs; the LCS call is only there to report the optimum next to the script
 	es := slice.EditScript(lhs, rhs)
-	lcs := slice.LCS(lhs, rhs)
+	lcs := c11dec(slice.LCS(lhs, rhs), dec)
+	var zero T
+	zeroSize := unsafe.Sizeof(zero) == 0
+	xi, yi := 0, 0
 	var sb strings.Builder
 	fmt.Fprintf(&sb, "lcs=%s n=%d script=", fmtInts(lcs), len(es))
 	if len(es) == 0 {
@@ -117,7 +213,24 @@ func (r *c11) editObs(lhs, rhs []int) string {
 		if i > 0 {
 			sb.WriteByte(' ')
 		}
-		fmt.Fprintf(&sb, "%c%s/%s@%s,%s", byte(e.Op), c11fmtCsv(e.X), c11fmtCsv(e.Y), c11off(lhs, e.X), c11off(rhs, e.Y))
+		xo, yo := c11off(lhs, e.X), c11off(rhs, e.Y)
+		if zeroSize {
+			xo, yo = "-", "-"
+			if len(e.X) > 0 {
+				xo = strconv.Itoa(xi)
+			}
+			if len(e.Y) > 0 {
+				yo = strconv.Itoa(yi)
+			}
+			xi += len(e.X)
+			switch e.Op {
+			case slice.OpEmit:
+				yi += len(e.X)
+			default:
+				yi += len(e.Y)
+			}
+		}
+		fmt.Fprintf(&sb, "%c%s/%s@%s,%s", byte(e.Op), c11fmtCsv(c11dec(e.X, dec)), c11fmtCsv(c11dec(e.Y, dec)), xo, yo)
 		switch e.Op {
 		case slice.OpReplace:
 			r.st.Note("edit-replace")
@@ -204,6 +317,38 @@ func (r *c11) Exec(op []string) string {
 			out += " INPUT-MODIFIED"
 		}
 		return out
+
+	case "editt":
+		// EditScript and LCS at another element type
+		if len(op) != 2 {
+			return "bad-op"
+		}
+		r.st.Note("editt-" + op[1])
+		if (op[1] == "zs" || op[1] == "za") && len(r.lhs) > 0 && len(r.rhs) > 0 && len(r.lhs) != len(r.rhs) {
+			r.st.Note("editt-zero-size-nonempty-different-lengths")
+		}
+		return c11typed(op[1], r.lhs, r.rhs, r.st, func(c c11call) string {
+			out := c.edit()
+			if c.mod() {
+				out += " INPUT-MODIFIED"
+			}
+			return out
+		})
+
+	case "lcst":
+		// LCS (or LCSFunc with equality modulo k) at another element type
+		if len(op) != 2 && len(op) != 3 {
+			return "bad-op"
+		}
+		k := 0
+		if len(op) == 3 {
+			k = atoi(op[2])
+		}
+		r.st.Note("lcst-" + op[1])
+		return c11typed(op[1], r.lhs, r.rhs, r.st, func(c c11call) string {
+			res, isNil := c.lcs(k)
+			return fmt.Sprintf("res=%s nil=%s mod=%s", fmtInts(res), fmtBool(isNil), fmtBool(c.mod()))
+		})
 
 	case "editview":
 		// both arguments are views of ONE backing array: EditScript(base[i:a], base[j:b]) on a copy of lhs
@@ -399,12 +544,57 @@ func c11related(g *G, maxRuns, alpha int) []string {
 	return ops
 }
 
+// c11types are the element types of `editt` / `lcst`.
+var c11types = []string{"zs", "za", "pad", "str"}
+
+// c11typedCalls are the calls of a stream at element type ty (for C12.lcs also LCSFunc with equality modulo 2).
+func c11typedCalls(calls []string, ty string) []string {
+	if calls[0] == "edit" {
+		return []string{"editt " + ty}
+	}
+	return []string{"lcst " + ty, "lcst " + ty + " 2"}
+}
+
+// genC11Typed: the calls at other element types.  For the zero-size types the input is two LENGTHS: every pair
+// of lengths 0..6 (unequal lengths, one empty, both empty included) and a few longer ones, with arbitrary values
+// in the state (they do not survive the conversion); for pad and str the hand-made corner cases.  A fixed
+// enumeration, dealt to the shards: every quick run has all of it.
+func genC11Typed(g *G, calls []string, corners [][2]string) {
+	lens := [][2]int{{7, 3}, {3, 7}, {1, 40}, {40, 1}, {33, 32}, {32, 33}, {17, 17}, {64, 0}, {0, 64}, {100, 99}}
+	for m := 0; m <= 6; m++ {
+		for n := 0; n <= 6; n++ {
+			lens = append(lens, [2]int{m, n})
+		}
+	}
+	for i, mn := range lens {
+		a, b := make([]int, mn[0]), make([]int, mn[1])
+		for j := range a {
+			a[j] = (i + 2*j) % 4
+		}
+		for j := range b {
+			b[j] = (i + j) % 3
+		}
+		ops := []string{"reset " + c11fmtCsv(a) + " " + c11fmtCsv(b)}
+		ops = append(ops, c11typedCalls(calls, "zs")...)
+		ops = append(ops, c11typedCalls(calls, "za")...)
+		g.Each(ops)
+	}
+	for _, p := range corners {
+		ops := []string{"reset " + p[0] + " " + p[1]}
+		for _, ty := range c11types {
+			ops = append(ops, c11typedCalls(calls, ty)...)
+		}
+		g.Each(ops)
+	}
+}
+
 func genC11Pairs(calls ...string) func(g *G) {
 	return func(g *G) {
 		// corner cases by hand: empty inputs, equal inputs, one element
-		for _, p := range [][2]string{{"-", "-"}, {"1", "-"}, {"-", "1"}, {"1", "1"}, {"1", "2"}, {"1,2,3", "1,2,3"},
+		corners := [][2]string{{"-", "-"}, {"1", "-"}, {"-", "1"}, {"1", "1"}, {"1", "2"}, {"1,2,3", "1,2,3"},
 			{"1,2,3", "3,2,1"}, {"0,0,0,0", "0,0"}, {"0,0", "0,0,0,0"}, {"0,1,0,1,0", "1,0,1,0,1"},
-			{"0,1,2,3,4,5", "3,4,5,0,1,2"}, {"3,1,5", "0,4,2,6"}, {"7,7,7", "1,4"}} {
+			{"0,1,2,3,4,5", "3,4,5,0,1,2"}, {"3,1,5", "0,4,2,6"}, {"7,7,7", "1,4"}}
+		for _, p := range corners {
 			g.Case(append([]string{"reset " + p[0] + " " + p[1]}, calls...))
 		}
 		// HELD backing arrays: the same two slices for several calls, the left one permuted in place in between
@@ -435,6 +625,7 @@ func genC11Pairs(calls ...string) func(g *G) {
 			}
 			g.Case(append(ops, calls...))
 		}
+		genC11Typed(g, calls, append(corners, [2]string{"2,3,2,3,4", "3,2,5,3"}, [2]string{"0,8,16,1", "16,0,1,8,9"}))
 		// exhaustive: every pair over 3 symbols, lengths ≤ 5 (6 thorough: 1.19 M pairs),
 		// divided among the generator shards of one check run
 		maxLen := g.Scale(5, 6)
@@ -456,7 +647,10 @@ func genC11Pairs(calls ...string) func(g *G) {
 		for c := 0; c < g.Scale(400, 6000); c++ {
 			alpha := []int{2, 3, 4, 8, 50}[g.Intn(5)]
 			ops := c11related(g, g.Scale(10, 24), alpha)
-			g.Case(append(ops, calls...))
+			ops = append(ops, calls...)
+			// also at another element type, the types in turn (measured: +1 % on the driver's time)
+			ops = append(ops, c11typedCalls(calls, c11types[c%4])...)
+			g.Case(ops)
 		}
 		// random: unrelated inputs over a tiny alphabet, and an input against itself
 		for c := 0; c < g.Scale(100, 1500); c++ {
@@ -472,6 +666,7 @@ func genC11Pairs(calls ...string) func(g *G) {
 				b = slices.Clone(a)
 			}
 			ops := append([]string{"reset", c11line("l", a), c11line("r", b)}, calls...)
+			ops = append(ops, c11typedCalls(calls, c11types[(c+1)%4])...)
 			if calls[0] == "lcs" && len(a) > 1 {
 				// both arguments as views of one backing array (same start, different lengths, both orders)
 				n := g.Intn(len(a))
